@@ -221,6 +221,7 @@ func genResp(t *rapid.T, cfg *Config, scale int, e2e bool) Resp {
 				r.Body = 1
 			}
 		}
+		r.ReqClose = rapid.IntRange(0, 3).Draw(t, "req_close") == 0
 		return r
 	}
 	r.Head = pick(t, "head", 20, 21, 60, 60, 200, 300, 4096, 5000)
@@ -256,7 +257,8 @@ func genHistory(t *rapid.T, level string, maxSteps int, scales []int) Case {
 		}
 	}
 	doOpen := func() {
-		c.Steps = append(c.Steps, Step{Op: "open", Conn: next})
+		faulty := level == "conn" && rapid.IntRange(0, 4).Draw(t, "faulty_close") == 0
+		c.Steps = append(c.Steps, Step{Op: "open", Conn: next, Faulty: faulty})
 		connCfg[next] = active
 		open = append(open, next)
 		next++
@@ -278,6 +280,15 @@ func genHistory(t *rapid.T, level string, maxSteps int, scales []int) Case {
 			r := genResp(t, connCfg[id], scale, level == "e2e")
 			c.Steps = append(c.Steps, Step{Op: "resp", Conn: id, R: &r})
 			resps++
+			if r.ReqClose {
+				// the proxy closes the connection after this response
+				for j := range open {
+					if open[j] == id {
+						open = append(open[:j], open[j+1:]...)
+						break
+					}
+				}
+			}
 		case k < 15:
 			post(genConfig(t, scale, false))
 		case k == 15 && active != nil:
@@ -290,7 +301,7 @@ func genHistory(t *rapid.T, level string, maxSteps int, scales []int) Case {
 			post(bad)
 		default:
 			j := rapid.IntRange(0, len(open)-1).Draw(t, "close")
-			c.Steps = append(c.Steps, Step{Op: "close", Conn: open[j]})
+			c.Steps = append(c.Steps, Step{Op: "close", Conn: open[j], Abort: rapid.Bool().Draw(t, "abort")})
 			open = append(open[:j], open[j+1:]...)
 		}
 	}
@@ -351,13 +362,13 @@ func genResources(t *rapid.T) Case {
 	flavour := rapid.IntRange(0, 5).Draw(t, "flavour") // 0-2 connections only, 3 rejected, 4 replaced, 5 both
 	n := rapid.IntRange(1, 4).Draw(t, "conns")
 	for i := 0; i < n; i++ {
-		c.Steps = append(c.Steps, Step{Op: "open", Conn: next})
+		c.Steps = append(c.Steps, Step{Op: "open", Conn: next, Faulty: rapid.IntRange(0, 2).Draw(t, "faulty_close") == 0})
 		if rapid.Bool().Draw(t, "use") {
 			r := genResp(t, &cfg, scale, false)
 			c.Steps = append(c.Steps, Step{Op: "resp", Conn: next, R: &r})
 		}
 		if rapid.IntRange(0, 3).Draw(t, "close_now") == 0 {
-			c.Steps = append(c.Steps, Step{Op: "close", Conn: next})
+			c.Steps = append(c.Steps, Step{Op: "close", Conn: next, Abort: rapid.Bool().Draw(t, "abort")})
 		}
 		next++
 		if i == 0 && (flavour == 3 || flavour == 5) {
@@ -383,6 +394,9 @@ func analyze(c Case) map[string]bool {
 		cfg, ok := conns[id]
 		if !ok {
 			return
+		}
+		if r.ReqClose && r.Pat >= 0 && cfg.byPat(r.Pat) != nil && cfg == active {
+			cl["matching-request-asks-close"] = true
 		}
 		if r.Pat < 0 || cfg.byPat(r.Pat) == nil {
 			cl["non-matching-response"] = true
@@ -472,6 +486,13 @@ func analyze(c Case) map[string]bool {
 		case "open":
 			if _, dup := conns[st.Conn]; !dup {
 				conns[st.Conn] = active
+				if st.Faulty && c.Level == "conn" {
+					cl["wrapped-close-reports-error"] = true
+				}
+			}
+		case "close":
+			if st.Abort {
+				cl["client-reset"] = true
 			}
 		case "resp":
 			if st.R != nil {
@@ -579,6 +600,14 @@ func fixedCases() []Case {
 			}
 		}
 	}
+	// the client asks for Connection: close and the origin's answer does not carry it: the proxy adds
+	// the line itself, and the head length it tells the shaped connection must include it
+	for _, at := range []int64{200, 9000} {
+		out = append(out, one("e2e", Shape{Pat: 1, Var: 1, Closes: []CloseAct{{At: at, N: -1}}, Halts: []Halt{{At: at - 50, Dur: 20, N: -1}}},
+			Resp{Pat: 1, Body: 12000, Seed: 30, ReqClose: true},
+			Resp{Pat: 1, Start: 150, Body: 12000, Seed: 31, ReqClose: true},
+			Resp{Pat: -1, Body: 12000, Seed: 32, ReqClose: true}))
+	}
 	out = append(out, one("e2e", Shape{Pat: 0, Var: 2, Closes: []CloseAct{{At: 900, N: -1}}},
 		Resp{Pat: 0, Start: 500, Body: 3000, Seed: 7, Star: true},
 		Resp{Pat: 0, Start: 0, P206: true, Body: 3000, Seed: 8, Star: true}))
@@ -635,6 +664,11 @@ func resourceCases() []Case {
 			{Op: "post", Cfg: p(a)}, {Op: "open", Conn: 0}, {Op: "open", Conn: 1},
 			{Op: "resp", Conn: 0, R: r(0, 1000, 1)}, {Op: "resp", Conn: 1, R: r(1, 1000, 2)}, {Op: "resp", Conn: 1, R: r(0, 1000, 3)},
 		}},
+		// shaped connections wrapped around a connection whose Close reports an error; one client resets
+		{Level: "conn", Res: true, Steps: []Step{
+			{Op: "post", Cfg: p(a)}, {Op: "open", Conn: 0, Faulty: true}, {Op: "open", Conn: 1, Faulty: true}, {Op: "open", Conn: 2},
+			{Op: "resp", Conn: 0, R: r(1, 1000, 12)}, {Op: "resp", Conn: 1, R: r(0, 1000, 13)}, {Op: "close", Conn: 2, Abort: true},
+		}},
 		{Level: "conn", Res: true, Steps: []Step{
 			{Op: "post", Cfg: p(a)}, {Op: "open", Conn: 0}, {Op: "post", Cfg: p(bad)},
 			{Op: "resp", Conn: 0, R: r(0, 1000, 4)}, {Op: "open", Conn: 1}, {Op: "resp", Conn: 1, R: r(0, 1000, 5)}, {Op: "close", Conn: 1},
@@ -647,6 +681,13 @@ func resourceCases() []Case {
 			{Op: "post", Cfg: p(m)}, {Op: "open", Conn: 0}, {Op: "open", Conn: 1},
 			{Op: "resp", Conn: 0, R: &Resp{Pat: -1, Body: 2000, Seed: 8}}, {Op: "resp", Conn: 0, R: &Resp{Pat: 1, Body: 2000, Seed: 9}},
 			{Op: "resp", Conn: 1, R: &Resp{Pat: 1, Start: 100, Body: 2000, Seed: 10}}, {Op: "resp", Conn: 1, R: &Resp{Pat: 2, Body: 100, Seed: 11, Chunked: true}},
+		}},
+		// MITM'd clients that drop their connection (RST, no close_notify): closing the TLS session fails
+		// on the proxy side, the buckets of the shaped connection around it must go all the same
+		{Level: "mitm", Res: true, Steps: []Step{
+			{Op: "post", Cfg: p(m)}, {Op: "open", Conn: 0}, {Op: "open", Conn: 1}, {Op: "open", Conn: 2},
+			{Op: "resp", Conn: 0, R: &Resp{Pat: 2, Body: 700, Seed: 14}}, {Op: "resp", Conn: 1, R: &Resp{Pat: 1, Body: 400, Seed: 15}},
+			{Op: "close", Conn: 0, Abort: true}, {Op: "close", Conn: 1, Abort: true}, {Op: "close", Conn: 2, Abort: true},
 		}},
 	}
 }
@@ -685,7 +726,7 @@ func runLockOnce(c LockCase, T time.Duration) kit.Verdict {
 	w.post(cfg)
 	var lanes []Lane
 	for i := 0; i < c.Conns; i++ {
-		w.open(i)
+		w.open(i, false)
 		ln := Lane{Conn: i}
 		for r := 0; r < c.Rounds; r++ {
 			ln.Rs = append(ln.Rs, Resp{Pat: 0, Body: 11, Head: 20, Seed: uint64(r + 1)})
